@@ -20,7 +20,14 @@
 EXTENDS Wrappers, Json, IOUtils
 
 Trace == ndJsonDeserialize(IOEnv.VERIF_TRACE)
-Impl == IOEnv.VERIF_IMPL
+\* the target as logged: "memfs", "orefafs", "osfs", or "memfs-win" / "orefafs-win" for the Windows-typed instances
+Target == IOEnv.VERIF_IMPL
+IsWin == Target \in {"memfs-win", "orefafs-win"}
+Impl == Target
+
+\* a Windows-typed file system answers with Windows error values: the errno of the reference becomes "WIN";
+\* modes and owners are documented as OS specific and are not compared (C17)
+WinErr(e) == IF e \in {"ok", "EOF", "CLOSED", "NOHANDLE", "NEGOFF", "EAPPENDAT", "EINVALH", "PANIC", "DEADLOCK", "EINJECTED", "LINUX-ELOOP"} THEN e ELSE "WIN"
 
 VARIABLES l,
           cands, \* the specification states the implementation may be in: a set of [st, kf] - the recorded
@@ -36,13 +43,15 @@ PostOf(ev) == {[ev.post[i] EXCEPT !.same = Range(@)] : i \in DOMAIN ev.post}
 
 \* a file system without identity manager shows no owners
 ProjFor(s) ==
-    IF Impl = "orefafs" THEN {[e EXCEPT !.u = 0, !.g = 0] : e \in Proj(s)} ELSE Proj(s)
+    IF IsWin THEN {[e EXCEPT !.u = 0, !.g = 0, !.m = 0] : e \in Proj(s)}
+    ELSE IF Orefa(Impl) THEN {[e EXCEPT !.u = 0, !.g = 0] : e \in Proj(s)} ELSE Proj(s)
 
-ResMatch(op, a, b) ==
+ResMatch(op, a0, b) ==
+    LET a == IF IsWin THEN [a0 EXCEPT !.err = WinErr(@), !.info = [@ EXCEPT !.m = 0, !.u = 0, !.g = 0]] ELSE a0 IN
     /\ a.err = b.err
     /\ (a.err \in {"ok", "EOF"}) =>
         CASE op \in {"stat", "lstat", "fstat"} ->
-                IF Impl = "orefafs" THEN [a.info EXCEPT !.u = 0, !.g = 0] = b.info ELSE a.info = b.info
+                IF Orefa(Impl) THEN [a.info EXCEPT !.u = 0, !.g = 0] = b.info ELSE a.info = b.info
           [] op \in {"readlink", "evalsymlinks", "getwd"} -> a.path = b.path
           [] op \in {"readdir", "freaddir", "freaddirnames"} ->
                 a.n = b.n /\ (IF a.err = "ok" THEN a.names = Range(b.names) ELSE TRUE)
@@ -57,8 +66,8 @@ Matches(o, ev) ==
     /\ (ev.res.err \notin {"PANIC", "DEADLOCK"}) =>
           (/\ ProjFor(o.st) = PostOf(ev)
            /\ CwdPath(o.st) = ev.cwd
-           /\ (ev.um # -1 => o.st.umask = ev.um)      \* the umask of the (parent) file system itself
-           /\ HObs(o.st) = ev.hs
+           /\ ((ev.um # -1 /\ ~IsWin) => o.st.umask = ev.um)      \* the umask of the (parent) file system itself
+           /\ (IF IsWin THEN [i \in DOMAIN HObs(o.st) |-> [HObs(o.st)[i] EXCEPT !.m = 0]] ELSE HObs(o.st)) = ev.hs
            /\ ev.srt
            /\ (o.inv = "ok" => ev.inv = "ok"))
     \* a path handed back through BasePathFS never shows the base path (unless a deviation is known to)
